@@ -76,3 +76,37 @@ pub fn reset_token_event_native(same_addr: bool) -> u32 {
     assert!(ep.open_connections() == 0);
     1
 }
+
+/// Native replay body for the E2 query `e2_endpoint_accept_routing` (C09 / C08): an Initial whose
+/// payload fails authentication at `accept` (the null packet key rejects everything) must leave no
+/// route behind - a retransmission with the same destination CID starts a fresh attempt instead of
+/// being routed to the buffer slot of the abandoned one.
+pub fn accept_auth_failure_native(_x: u8) -> u32 {
+    use crate::connection::verif::nullcrypto;
+    let mut cfg = EndpointConfig::new(Arc::new(NullHmac));
+    cfg.rng_seed(Some([7; 32]));
+    let server = ServerConfig::new(Arc::new(nullcrypto::NullServerCrypto), Arc::new(nullcrypto::NullTokenKey));
+    let mut ep = Endpoint::new(Arc::new(cfg), Some(Arc::new(server)), true);
+    let now = crate::verif::mk_instant(100, 0).unwrap();
+    let remote: SocketAddr = "10.0.0.1:4433".parse().unwrap();
+    // long header, Initial, version 1, 8-byte DCID, empty SCID, no token, length, 1-byte packet number, padding to 1200
+    let mk = || {
+        let mut v = vec![0xc0u8, 0, 0, 0, 1, 8, 9, 9, 9, 9, 9, 9, 9, 9, 0, 0];
+        let rest = 1200 - v.len() - 2;
+        v.extend_from_slice(&[0x40 | (rest >> 8) as u8, rest as u8]);
+        v.resize(1200, 0);
+        BytesMut::from(&v[..])
+    };
+    let mut buf = Vec::new();
+    let Some(DatagramEvent::NewConnection(incoming)) = ep.handle(now, remote, None, None, mk(), &mut buf) else { panic!("first Initial must start a connection attempt") };
+    assert!(ep.accept(incoming, now, &mut buf, None).is_err(), "an unauthentic Initial was accepted");
+    assert!(ep.incoming_buffer_bytes() == 0);
+    // the client's retransmission: same destination CID
+    match ep.handle(now, remote, None, None, mk(), &mut buf) {
+        Some(DatagramEvent::NewConnection(again)) => {
+            ep.ignore(again);
+            1
+        }
+        _ => panic!("retransmitted Initial was not treated as a new attempt (stale route)"),
+    }
+}
